@@ -22,6 +22,29 @@ def splitBar (ws : List String) : List (List String) :=
 
 def showNested (l : List (List Int)) : String := " | ".intercalate (l.map showInts)
 
+open Bits in
+/-- everything C19 observes about `IntegerWrapper(v, n)`, in one canonical line -/
+def iwAll (v n : Nat) (pairs : Option (List (Nat × Nat))) : String :=
+  let x := IW.new v n
+  let showL (l : List Nat) : String := ",".intercalate (l.map toString)
+  let ws : List (Nat × Nat) := match pairs with
+    | some ps => ps
+    | none => (List.range n).flatMap fun w' => (List.range (n + 1)).map fun s => (w' + 1, s)
+  let slices := ws.map fun (w, s) =>
+      let a := x.slice w s
+      let c := x.sliceCompl w s
+      let r := x.sliceRev w s
+      s!"{a.val}/{a.n}:{c.val}/{c.n}:{r.val}/{r.n}"
+  let syms := [2, 4, 16].flatMap fun L =>
+    [Order.lsb, Order.msb].map fun o =>
+      match x.symbolIdx o L with
+      | none => "err"
+      | some sy =>
+        let bits := sy.flatMap (idxToBits L)
+        let back := getValue o bits 0 (bits.length - 1)
+        s!"{showL sy}>{back.val}/{back.n}"
+  s!"{x.val}/{x.n} it={showL x.iter} bits={showL x.bits} rev={x.reverseBits.val} inv={x.invertBits.val} pop={x.numOneBits} sl={" ".intercalate slices} sy={" ".intercalate syms}"
+
 def step (line : String) : String :=
   match (line.trimAscii.toString.splitOn " ").filter (· ≠ "") with
   | "mce" :: ws =>
@@ -40,6 +63,16 @@ def step (line : String) : String :=
       let r := Mce.rlcToMceFlat l
       "ok " ++ showInts r.result ++ " ; arg-after " ++ showInts r.argAfter ++ " ; fresh " ++ toString r.fresh
     | none => "bad-op"
+  | "iwall" :: v :: n :: rest =>
+    match v.toNat?, n.toNat?, rest.mapM (·.toNat?) with
+    | some v, some n, some r =>
+      if r.isEmpty then iwAll v n none
+      else
+        let rec pr : List Nat → List (Nat × Nat)
+          | a :: b :: t => (a, b) :: pr t
+          | _ => []
+        iwAll v n (some (pr r))
+    | _, _, _ => "bad-op"
   | _ => "bad-op"
 
 partial def loop (h : IO.FS.Stream) (out : IO.FS.Stream) : IO Unit := do
